@@ -52,3 +52,29 @@ def judge_ops(events, tag="judge", timeout=1800):
         raise T.MachineryError("judge returned %d verdicts for %d events" % (len(verdicts), len(events)))
     os.remove(path)
     return verdicts, stats
+
+
+_RE_JQ = re.compile(r'^<<"J", (\d+), "([^"]*)", \{([^}]*)\}>>')
+
+
+def run_judge(module, events, constants, tag, timeout=1800):
+    """Generic judge: module reads IOEnv.TRACE_FILE and prints <<"J", l, id, {violated}>> per line."""
+    os.makedirs(os.path.join(T.BUILD, "judge"), exist_ok=True)
+    fd, path = tempfile.mkstemp(prefix=tag + "-", suffix=".ndjson", dir=os.path.join(T.BUILD, "judge"))
+    with os.fdopen(fd, "w") as f:
+        for e in events:
+            f.write(json.dumps(e) + "\n")
+    cfg = T.cfg_text(constants, init="TInit", next_="TNext", postcondition="Accepted", deadlock=False)
+    stats = T.run_tlc(module, cfg, tag=tag, workers=1, env={"TRACE_FILE": path}, use_cache=False,
+                      keep_prefixes=('<<"J"',), timeout=timeout)
+    T.require_ok(stats)
+    verdicts = {}
+    for line in T.read_lines(stats["lines_path"]):
+        m = _RE_JQ.match(line)
+        if not m:
+            raise T.MachineryError("unparsable judge line: " + line[:200])
+        verdicts[m.group(2)] = set(x.strip().strip('"') for x in m.group(3).split(",") if x.strip())
+    if len(verdicts) != len(events):
+        raise T.MachineryError("judge returned %d verdicts for %d events" % (len(verdicts), len(events)))
+    os.remove(path)
+    return verdicts, stats
